@@ -328,7 +328,7 @@ def repl_worker(job):
             so = '\n'.join(l for l in lines if not l.startswith('(bech32'))
             why = c['check'](so, r.stderr.decode('latin1'))
             if why and 'corrupt' not in c['kind'] and 'overflow' not in c['kind']:
-                part.violation('%s:repl-output-differs' % c['kind'], dict(tf=c['tf'][:300], why=why, out=s['out'][:300]))
+                part.violation('%s:repl-output-differs' % c['kind'] if c['kind'] != 'add:small-operand' else 'multi-argument-transform-rejects-small-operands', dict(tf=c['tf'][:300], why=why, out=s['out'][:300]))
             else:
                 part.count('repl', c['kind'])
                 part.nontrivial.add(nt_hash('repl', c['tf']))
